@@ -2151,6 +2151,144 @@ fn nrd_repeated(run: &Run, base: &str, n_variants: u64, shard: u64, nshards: u64
 	}
 }
 
+// ---------------------------------------------------------------- NRD kernel x compaction / restart on a long chain
+
+/// The recent-kernel index is rebuilt from the kernel history when the node starts and when it compacts; relative
+/// heights reach far beyond the window of full blocks a compacted node keeps (a week against two days on mainnet,
+/// 20 blocks here). An NRD kernel is mined early (height 9..11), the chain grows to height 84 / 85 and is compacted
+/// (the body tail moves above the kernel's block), on odd variants the node is restarted, and the same kernel comes
+/// again - offered to the pool's admission path (`Chain::validate_tx`) and then in a block at the next height - with a
+/// relative height one above / equal to / one below its distance to the first occurrence. The rule, evaluated by the
+/// reference ledger over the whole ancestry, decides; the node must agree.
+fn nrd_after_compaction(run: &Run, base: &str, n_variants: u64, shard: u64, nshards: u64) {
+	use vcommon::forktree::{GenBlock, Hist};
+	use vcommon::scenarios::mk_block_txs;
+	vcommon::world::init_thread(true);
+	for v in 0..n_variants {
+		if v % nshards != shard {
+			continue;
+		}
+		let seed = run.seed.wrapping_mul(0x9E37_79B9_7F4A_7C15) ^ (0x4E52_4443 + v);
+		let off: i64 = [1i64, 0, -1][(v % 3) as usize]; // +1: one block too early (refuse), 0 / -1: allowed
+		let restart = (v / 3) % 2 == 1;
+		let h1 = NRD_FIRST_HEIGHT + (v / 6) % 3;
+		let top = 84 + (v % 2);
+		let mut h = Hist::new(seed, false);
+		let kp = Prng::new(seed ^ 0x4B45_524E);
+		let mut a: Vec<GenBlock> = vec![];
+		let mut tip = h.genesis.hash();
+		for height in 1..=top {
+			let txs = if height == h1 {
+				let coin = h.spendable(&tip).into_iter().next().expect("mature coin");
+				vec![h.nrd_tx(&coin, 1, &kp)]
+			} else {
+				vec![]
+			};
+			let gb = mk_block_txs(&mut h, &tip, &txs, 10, if height == h1 { "nrd_first_occurrence" } else { "filler" });
+			tip = gb.hash;
+			a.push(gb);
+		}
+		let dist = top + 1 - h1;
+		let rel = (dist as i64 + off) as u64;
+		let coin = h.spendable(&tip).into_iter().next().expect("mature coin");
+		let tx = h.nrd_tx(&coin, rel, &kp);
+		let decision = mk_block_txs(&mut h, &tip, &[tx.clone()], 10, "nrd_decision_after_compaction");
+		let expected = decision.verdict.is_ok();
+		if expected != (off <= 0) {
+			run.inconclusive(&format!("nrd_after_compaction: the reference rule gives {:?} for off {}", decision.verdict, off));
+			continue;
+		}
+		let dir = format!("{}/nrdcomp{}", base, v);
+		let _ = std::fs::remove_dir_all(&dir);
+		let desc = json!({"scenario": "nrd_after_compaction", "variant": v, "seed": seed, "first_occurrence_height": h1, "head_height": top,
+			"relative_height": rel, "distance": dist, "off": off, "restart": restart});
+		let mut chain = match open_chain(&dir, &h.genesis) {
+			Ok(c) => Some(c),
+			Err(e) => {
+				run.inconclusive(&format!("nrd_after_compaction: cannot open chain: {}", e));
+				continue;
+			}
+		};
+		let mut ok = true;
+		for gb in &a {
+			if let Err(e) = chain.as_ref().unwrap().process_block(gb.block.clone(), Options::SKIP_POW) {
+				run.inconclusive(&format!("nrd_after_compaction: honest block at height {} refused: {:?}", gb.block.header.height, e));
+				ok = false;
+				break;
+			}
+		}
+		if ok {
+			let c = chain.as_ref().unwrap();
+			if let Err(e) = c.compact() {
+				run.inconclusive(&format!("nrd_after_compaction: compact() failed: {:?}", e));
+				ok = false;
+			} else {
+				let tail = c.tail().map(|t| t.height).unwrap_or(0);
+				if tail <= h1 {
+					run.inconclusive(&format!("nrd_after_compaction: tail {} did not move above the first occurrence {}", tail, h1));
+					ok = false;
+				} else {
+					run.count("nrd_after_compaction.compactions_moving_the_tail_above_the_first_occurrence", 1);
+				}
+			}
+		}
+		if ok && restart {
+			drop(chain.take());
+			chain = match open_chain(&dir, &h.genesis) {
+				Ok(c) => Some(c),
+				Err(e) => {
+					run.inconclusive(&format!("nrd_after_compaction: cannot reopen chain: {}", e));
+					None
+				}
+			};
+			run.count("nrd_after_compaction.restarts", 1);
+		}
+		if let (true, Some(c)) = (ok, chain.as_ref()) {
+			let tagx = if expected { "accept" } else { "reject" };
+			// the pool's admission path
+			match monitor::catch(|| c.validate_tx(&tx)) {
+				Err(pn) => run.violation(&format!("nrd_after_compaction;panic;at={}", pn.location), &format!("validate_tx panicked: {} at {}", pn.message, pn.location), desc.clone()),
+				Ok(r) => {
+					run.eval(&format!("nrd_after_compaction:pool:off{}:restart{}:{}", off, restart as u8, tagx), true);
+					if r.is_ok() != expected {
+						run.violation(
+							&format!("nrd_after_compaction;pool;node_{}", if r.is_ok() { "accepts_what_the_rule_refuses" } else { "refuses_what_the_rule_accepts" }),
+							&format!(
+								"Chain::validate_tx for an NRD kernel (relative height {}) whose excess was last mined {} blocks before the next block, on a chain compacted above that block: node {:?}, reference rule {:?}",
+								rel, dist, r.as_ref().err().map(|e| format!("{:?}", e).chars().take(80).collect::<String>()), decision.verdict
+							),
+							desc.clone(),
+						);
+					}
+				}
+			}
+			match monitor::catch(|| c.process_block(decision.block.clone(), Options::SKIP_POW)) {
+				Err(pn) => run.violation(&format!("nrd_after_compaction;panic;at={}", pn.location), &format!("process_block panicked: {} at {}", pn.message, pn.location), desc.clone()),
+				Ok(r) => {
+					run.eval(&format!("nrd_after_compaction:block:off{}:restart{}:{}", off, restart as u8, tagx), true);
+					run.count(&format!("nrd_after_compaction.decisions.{}", tagx), 1);
+					if r.is_ok() != expected {
+						run.violation(
+							&format!("nrd_after_compaction;block;node_{}", if r.is_ok() { "accepts_what_the_rule_refuses" } else { "refuses_what_the_rule_accepts" }),
+							&format!(
+								"block at height {} carrying an NRD kernel (relative height {}) whose excess was last mined at height {}, on a chain compacted above that block{}: node {:?}, reference rule {:?}",
+								top + 1, rel, h1, if restart { " and restarted" } else { "" },
+								r.as_ref().map(|_| "accepted").map_err(|e| format!("{:?}", e).chars().take(80).collect::<String>()), decision.verdict
+							),
+							desc.clone(),
+						);
+					} else {
+						run.count("nrd_after_compaction.scenarios_agreeing", 1);
+					}
+				}
+			}
+		}
+		drop(chain);
+		run.count("nrd_after_compaction.scenarios", 1);
+		let _ = std::fs::remove_dir_all(&dir);
+	}
+}
+
 // ---------------------------------------------------------------- main
 
 fn run_scenario(rec: &Run, base: &str, idx: usize, spec: &Spec) {
@@ -2203,6 +2341,7 @@ fn do_shard(run: &Run, specs: &[Spec], core: usize, k: usize, n: usize, deadline
 	}
 	// the repeated-NRD-kernel scenarios are part of the core set: their variants are spread over the workers
 	nrd_repeated(run, &base, run.tier.pick(54u64, 216u64), k as u64, n as u64);
+	nrd_after_compaction(run, &base, run.tier.pick(12u64, 72u64), k as u64, n as u64);
 	run.count("shards_finished", 1);
 	drop(sc);
 }
@@ -2357,6 +2496,9 @@ fn main() {
 		run.require("repeated NRD kernel: reorganisations rewinding two or more occurrences", run.counter("nrd_repeated.reorgs_rewinding_two_or_more_occurrences"), run.tier.pick(10, 40));
 		run.require("repeated NRD kernel: decisions the rule refuses", run.counter("nrd_repeated.decisions.reject"), run.tier.pick(10, 40));
 		run.require("repeated NRD kernel: decisions the rule accepts", run.counter("nrd_repeated.decisions.accept"), run.tier.pick(20, 80));
+		run.require("NRD kernel after compaction: scenarios agreeing with the reference rule", run.counter("nrd_after_compaction.scenarios_agreeing"), run.tier.pick(8, 48));
+		run.require("NRD kernel after compaction: decisions the rule refuses", run.counter("nrd_after_compaction.decisions.reject"), run.tier.pick(3, 16));
+		run.require("NRD kernel after compaction: restarts before the decision", run.counter("nrd_after_compaction.restarts"), run.tier.pick(3, 16));
 	}
 	run.finish();
 }
